@@ -80,33 +80,38 @@ def ensure_makefile():
             raise RuntimeError("coq_makefile failed: " + out)
 
 
+notes_changed = []
+
+
 def regen(log):
     """Regenerate coq/Gen/*.v from the working tree of REPO (translator part of the tie).
     Files are only replaced when their content changes so make stays incremental."""
     notes = []
-    gens = [("schemagen", os.path.join(ROOT, "tools", "schemagen")),
-            ("globalsgen", os.path.join(ROOT, "tools", "globalsgen"))]
-    for name, d in gens:
-        if not os.path.isdir(d):
-            continue
-        binp = os.path.join(WORK, "bin", name)
-        rc, out = sh(["go", "build", "-tags", "verif", "-o", binp, "."], cwd=d, env=GOENV, timeout=600)
-        log.write("== build %s rc=%d\n%s\n" % (name, rc, out))
+    with Lock("go.lock"):
+        binp = os.path.join(WORK, "bin", "harness")
+        rc, out = sh(["go", "build", "-tags", "verif", "-o", binp, "."], cwd=os.path.join(ROOT, "harness"), env=GOENV, timeout=900)
+        log.write("== build harness (translator) rc=%d\n%s\n" % (rc, out))
         if rc != 0:
-            notes.append("translator %s no longer builds against the tree" % name)
-            continue
-        tmpd = os.path.join(WORK, "gen-" + name)
+            notes.append("translator (harness gen) no longer builds against the tree")
+            return notes
+        build_harness.done = True
+        tmpd = os.path.join(WORK, "gen-%d" % os.getpid())
         os.makedirs(tmpd, exist_ok=True)
-        rc, out = sh([binp, "-repo", REPO, "-out", tmpd], cwd=d, env=GOENV, timeout=600)
-        log.write("== run %s rc=%d\n%s\n" % (name, rc, out))
+        rc, out = sh([binp, "gen", "-out", tmpd], cwd=os.path.join(ROOT, "harness"), env=GOENV, timeout=600)
+        log.write("== harness gen rc=%d\n%s\n" % (rc, out))
         if rc != 0:
-            notes.append("translator %s failed on the tree" % name)
-            continue
+            notes.append("translator (harness gen) failed on the tree")
+            return notes
+    with Lock("coq.lock"):
         for f in glob.glob(os.path.join(tmpd, "*.v")):
             dst = os.path.join(COQ, "Gen", os.path.basename(f))
             new = open(f).read()
             if not os.path.exists(dst) or open(dst).read() != new:
                 open(dst, "w").write(new)
+                notes_changed.append(os.path.basename(f))
+    for f in glob.glob(os.path.join(tmpd, "*")):
+        os.remove(f)
+    os.rmdir(tmpd)
     return notes
 
 
@@ -185,6 +190,8 @@ def prove(prop, cfg, log):
 
 
 def build_harness(log):
+    if os.path.exists(os.path.join(WORK, "bin", "harness")) and getattr(build_harness, "done", False):
+        return True, ""
     with Lock("go.lock"):
         os.makedirs(os.path.join(WORK, "bin"), exist_ok=True)
         hd = os.path.join(ROOT, "harness")
